@@ -15,12 +15,14 @@ CONSTANTS MAXCUTS, LEN3
 
 OK(g) == [k |-> "OK", g |-> g]
 K(x) == [k |-> x]
-Full == {OK(g) : g \in {"valid", "other", "short", "long", "nonhex", "missing", "hyph"}}
+\* plus / minus / zx / under: 32 characters that a general integer parser takes for a hexadecimal number ("+" and 31 digits, ...);
+\* upper: a valid GUID in upper- and lower-case digits
+Full == {OK(g) : g \in {"valid", "other", "short", "long", "nonhex", "missing", "hyph", "plus", "minus", "zx", "under", "upper"}}
         \cup {K(x) : x \in {"REJECTED", "ERROR", "DATA", "AGREE_UNIX_FD", "UNKNOWN", "GARBAGE", "BADEND", "LFSTART"}}
-Red == {OK("valid"), OK("other"), OK("hyph"), OK("short"), K("AGREE_UNIX_FD"), K("ERROR"), K("REJECTED")}
+Red == {OK("valid"), OK("other"), OK("hyph"), OK("short"), OK("plus"), K("AGREE_UNIX_FD"), K("ERROR"), K("REJECTED")}
 Trails == {"none", "msg", "msgfd", "two", "twolate", "partial"}
 
-MaySucceed(ls) == ls # <<>> /\ ls[1].k = "OK" /\ ls[1].g \in {"valid", "other", "hyph"}
+MaySucceed(ls) == ls # <<>> /\ ls[1].k = "OK" /\ ls[1].g \in {"valid", "other", "hyph", "upper", "plus"}
 TrailsFor(ls) == IF MaySucceed(ls) THEN Trails ELSE {"none", "msg"}
 
 Reps == { [lines |-> <<OK("valid"), K("AGREE_UNIX_FD")>>, canfd |-> TRUE, trail |-> "msgfd"],
